@@ -44,7 +44,7 @@ PROPS["C05"] = {
 }
 PROPS["C07"] = {
     "technique": "Verus contracts on the extracted request-level error paths; the escalation entry carries the precondition is_connection_scoped(cause)",
-    "text": "Unbounded deductive proof: every path from a stream-scoped fault (peer RESET/STOP_SENDING, malformed message, section over the limit, FIN before HEADERS on either role) yields the stream-level outcome with the appropriate code (peer's code preserved), touches only this stream's ghost logs, and cannot reach the connection-error entry, whose precondition admits connection-scoped causes only. Independence of other requests is argued from ownership: the field lists of SharedState and of the request handles are pinned mechanically (a new shared field makes the run undecided); it is not proved about schedulers.",
+    "text": "Unbounded deductive proof: every path from a stream-scoped fault (peer RESET/STOP_SENDING, malformed message, section over the limit, FIN before HEADERS on either role) yields the stream-level outcome with the appropriate code (peer's code preserved), touches only this stream's ghost logs, and cannot reach the connection-error entry, whose precondition admits connection-scoped causes only. Independence of other requests is argued from ownership: the field lists of SharedState and of the request handles are pinned mechanically (a new shared field makes the run undecided); it is not proved about schedulers. In the Quinn adapter (unit quinn_adapter) a write that Quinn refuses for good leaves the adapter idle — no buffer is kept that would make the next frame on that stream look like misuse of the traits and turn the stream error into a connection error ([C07.write.error.idle]; the defect found there is fixed).",
     "note": "Callee contracts assumed from other units: FrameStream::poll_next/is_eos (frames), decode_stateless (qpack_stateless), Header::try_from/into_*_parts (headers), send_response frame; http builders; await-erasure (R4) with poll_fn sites replaced by a shim (R0).",
     "design_ref": "§4 C07, §6",
     "trusted_base": COMMON_TB + ["callee contracts marked ASSUMED-FROM-UNIT in units/error_scope.rs.in", "Rust ownership/aliasing for cross-request independence (argued)", "await-erasure R4"],
@@ -112,7 +112,7 @@ PROPS["C18"] = {
 }
 PROPS["C19"] = {
     "technique": "Kani full-domain harnesses for the SessionId conversions and WebTransport stream headers; Verus contracts for the receive path (Frame::decode WT arm, FrameStream::into_inner, AcceptRecvStream::poll_type, poll_accept_recv gate)",
-    "text": "SessionId::from(stream).into_inner() == stream id and the two conversions are inverse for every id < 2^62; the headers h3 writes are varint(0x41|0x54) ++ varint(session id) (Kani, complete). On receipt the WebTransport bidi header consumes exactly type + session id and hands on the id it read (unit frames), into_inner returns the buffered stream unchanged so the bytes that followed the header are delivered by the raw readers (units frames + buf: chunk independence), the uni header is type + id for every split (unit uni_streams) and WebTransport uni streams are queued iff enable_webtransport.",
+    "text": "SessionId::from(stream).into_inner() == stream id and the two conversions are inverse for every id < 2^62; the headers h3 writes are varint(0x41|0x54) ++ varint(session id) (Kani, complete). On receipt the WebTransport bidi header consumes exactly type + session id and hands on the id it read (unit frames), into_inner / split (BufRecvStream, FrameStream, connection::RequestStream) hand on the buffered bytes, the end-of-stream flag, the decoder memo and the owed DATA payload count unchanged, and every unframed reader of BufRecvStream — take_chunk, RecvStream::poll_data, futures AsyncRead::poll_read, tokio AsyncRead::poll_read — is under contract: what it hands out is exactly the next not-yet-consumed bytes of the transport stream, buffered bytes first, consumed once, end reported only with nothing buffered and the transport finished (unit frames, on top of unit buf: chunk independence); the uni header is type + id for every split (unit uni_streams) and WebTransport uni streams are queued iff enable_webtransport.",
     "note": "h3-webtransport's own forwarding impls (AsyncRead/AsyncWrite, accept_bi) are not under contract beyond the session_id line, which is the conversion proved here; WebTransportSession::accept is not extracted (its session id is `stream.send_id().into()`, read off the source).",
     "design_ref": "§4 C19",
     "trusted_base": COMMON_TB + ["kani/_spec.rs", "units frames, buf, uni_streams (their trusted bases)"],
